@@ -42,10 +42,18 @@ search         : on the real constructors and `solve`:
                  purity   -- the user's A (every format; also with tiny / subnormal / explicitly stored zero entries) and B / BH
                              are bitwise unchanged by every build (stored arrays up to the order inside a row);
                  formats  -- CSR / CSC / COO (duplicates, shuffled) / LIL / DIA / BSR / dense input give the same levels;
-                 seeds    -- two builds from fresh copies with the same NumPy seed are equal field by field, bitwise;
+                 seeds    -- two builds from fresh copies with the same NumPy seed are equal field by field, bitwise; the two builds
+                             are the two calls of ONE caller: they receive the SAME option objects (dicts, lists, tuples holding
+                             dicts, B / BH arrays), deep-compared before / after the first build (a build that changes them is a
+                             feature, a changed second build a violation); on >= 3 levels the hierarchy built with one option
+                             object for all levels equals the one built with the options written out level by level as copies;
                  reuse    -- after a random history of solve / preconditioner calls the observed call returns the
                              bits a never-used solver returns; no level operator changed; every ordered pair of different
-                             smoothers that share a per-level cache.
+                             smoothers that share a per-level cache;
+                 repeat   -- relaxation-type / polynomial coarse solvers on hierarchies of every constructor (CSR, BSR 1x1, BSR 2x2
+                             coarsest operators, also larger than the Krylov space of the spectral-radius estimate): after a first
+                             solve, the same call twice on one object (other calls in between) and once on a twin solver with the
+                             same first solve, the NumPy global RNG in a different state each time: bit-identical.
 """
 import contextlib
 import copy
@@ -74,6 +82,11 @@ META = {
             'level or the level matrix (Schwarz with user subdomains: transposed / rotated / block / random index sets, default and '
             'strength-based Schwarz, block Jacobi / block Gauss-Seidel with block sizes 2 and 3, Jacobi-NE, Gauss-Seidel-NE / -NR, '
             'Chebyshev, Jacobi) on a symmetric and a nonsymmetric problem, history = the observed call itself or two other solves; '
+            'options with nested dicts (energy smoothing x every prefilter / postfilter form x cg / cgnr / gmres; per-level lists of '
+            'strength / aggregate / smooth / improve_candidates / pre- and postsmoother, tuple-with-dict coarse solvers, one object '
+            'for pre- and postsmoother) on problems that coarsen to 3..5 levels, all constructors, the same option objects for two '
+            'builds; repeated solves: 18 coarse solvers (13 relaxation-type, string and tuple form) x all constructors x coarsest '
+            'level of 3..60 unknowns stored as CSR / BSR 1x1 / BSR 2x2, first solve + call + 0..2 other calls + call, twin solver; '
             'non-trivial = hierarchy with >= 2 levels (build cases), non-empty history on '
             '>= 2 levels or a caching coarse solver (reuse cases), a history with >= 2 calls (cache cases); distinct = distinct '
             '(constructor, input format, dtype, option names, history shape)',
@@ -89,6 +102,14 @@ META = {
                     'never write into a level operator: observed bitwise (used versus fresh solver, operator snapshots), the '
                     'theorems take it as the shape of the model',
                     'adaptive_sa_solver (thorough tier): purity and reproducibility only',
+                    'the caller\'s option objects: a build may change them (levelize extends short per-level lists in place, the '
+                    'coarse solver adds iterations to its dict, energy smoothing pops a zero theta: counted as features '
+                    'build_changes_option_objects:*) as long as a second build that receives the same objects is bit-identical; a '
+                    'single option value means the same as that value written out level by level (the documented meaning), observed '
+                    'bitwise on hierarchies with >= 3 levels',
+                    'after its first solve a solver draws no random numbers: the same call with the NumPy global RNG in different '
+                    'states returns the same bits (on the object itself and on a twin with the same first solve); the first solve '
+                    'itself is the known finding coarse-relaxation-lazy-random-rho',
                     'format independence at model level: the conversions to CSR keep the dense meaning and the Galerkin step sees '
                     'the meaning only (convert_preserves_meaning, galerkin_format_independent); the canonical stored form is unique '
                     '(canonical_unique: sorted duplicate-free rows + same meaning + same stored pattern => equal indptr / indices / '
@@ -123,6 +144,9 @@ META = {
                     'comparison for matrices with stored entries 0 < |a| < 1e-16 (the BSR branch of classical_strength_of_connection '
                     'drops them, the CSR branch keeps them as strong connections; the symmetric measure is all ones for BSR, scaled '
                     'values that underflow for CSR)',
+                    'left out of the repeated-solve clause until fixed or listed (reported): coarse_solver=\'jacobi_ne\' (withrho) on a '
+                    'coarsest operator that is not stored as CSR (setup_jacobi_ne converts it on a throw-away level inside every '
+                    'coarse solve, the spectral-radius estimate is cached on that temporary and re-drawn from numpy.random in every solve)',
                     '"hierarchy" = A, P, R, B, BH, splitting of every level; with keep=True also AggOp / T, and the pattern of C',
                     'reuse theorems: every coarse-solver call of a solver passes the same matrix (checked per instance: the object '
                     'levels[-1].A, content unchanged)',
@@ -691,11 +715,13 @@ class Built:
     pass
 
 
-def build(case, fmt, bs=1, shuffle_seed=0, trace_air=False):
-    """build on a FRESH input object; returns Built (ml or exc, input object, user arrays before/after)"""
+def build(case, fmt, bs=1, shuffle_seed=0, trace_air=False, kw=None):
+    """build on a FRESH input object; returns Built (ml or exc, input object, user arrays before/after).  `kw` = the option
+    objects to hand to the constructor AS THEY ARE (a caller that builds twice with its own option objects); default: a
+    pristine deep copy of the options of the case"""
     out = Built()
     Ain = make_input(case['A'], fmt, bs, case.get('dtype'), shuffle_seed, case.get('zmask'))
-    kw = real_kw(case['kw'])
+    kw = real_kw(case['kw']) if kw is None else kw
     out.Ain, out.kw = Ain, kw
     out.snapA0 = snapshot(Ain)
     out.canonA0 = canon_hash(Ain)
@@ -907,13 +933,115 @@ def bsr_treats_tiny_differently(case):
     return bool(((a > 0) & (a < 1e-16)).any())
 
 
+def opt_freeze(o):
+    """an option object as a comparable value (deep): dicts by sorted keys, arrays / matrices by content"""
+    if isinstance(o, dict):
+        return ('dict', tuple(sorted(((repr(k), opt_freeze(v)) for k, v in o.items()), key=lambda kv: kv[0])))
+    if isinstance(o, (list, tuple)):
+        return (type(o).__name__, tuple(opt_freeze(v) for v in o))
+    if isinstance(o, np.ndarray) or sp.issparse(o):
+        return ('array', snapshot(o)[0])
+    if callable(o):
+        return ('callable', getattr(o, '__name__', '?'))
+    return (type(o).__name__, repr(o))
+
+
+def opt_diff(a, b, path='options'):
+    """where the option objects `b` (after a build) differ from the deep copy `a` taken before it; None when equal"""
+    if isinstance(a, dict) and isinstance(b, dict):
+        for k in a:
+            if k not in b:
+                return f'{path}: key {k!r} removed'
+        for k in b:
+            if k not in a:
+                return f'{path}: key {k!r} added (= {str(b[k])[:40]})'
+        for k in a:
+            d = opt_diff(a[k], b[k], f'{path}[{k!r}]')
+            if d:
+                return d
+        return None
+    if isinstance(a, (list, tuple)) and type(a) is type(b):
+        if len(a) != len(b):
+            return f'{path}: {type(a).__name__} of length {len(a)} -> length {len(b)}'
+        for i, (x, y) in enumerate(zip(a, b)):
+            d = opt_diff(x, y, f'{path}[{i}]')
+            if d:
+                return d
+        return None
+    if opt_freeze(a) != opt_freeze(b):
+        return f'{path}: {str(a)[:40]} -> {str(b)[:40]}'
+    return None
+
+
+def carries_dict(o):
+    if isinstance(o, dict):
+        return True
+    return isinstance(o, (list, tuple)) and any(carries_dict(v) for v in o)
+
+
+PER_LEVEL_OPTIONS = {'sa': ('strength', 'aggregate', 'smooth', 'improve_candidates', 'presmoother', 'postsmoother'),
+                     'rn': ('strength', 'aggregate', 'smooth', 'improve_candidates', 'presmoother', 'postsmoother'),
+                     'pw': ('aggregate', 'presmoother', 'postsmoother'),
+                     'rs': ('presmoother', 'postsmoother'), 'air': ('presmoother', 'postsmoother')}
+
+
+def expand_per_level(kw, ctor, nlev):
+    """the same options with every per-level option WRITTEN OUT level by level as independent copies (documented meaning of
+    a single value: "that option at every level"; of a short list: "the last entry for all later levels"); one option
+    object given once is shared by all levels of a build, the written-out form shares nothing.  None if there is nothing
+    mutable to share."""
+    names = [nm for nm in PER_LEVEL_OPTIONS.get(ctor, ()) if nm in kw and carries_dict(kw[nm])]
+    if not names or nlev < 3:
+        return None
+    out = dict(kw)
+    for nm in names:
+        v = kw[nm]
+        if isinstance(v, list):
+            if not v or any(name_of(e) == 'predefined' for e in v):
+                return None
+            L = max(len(v), nlev - 1)
+            out[nm] = [copy.deepcopy(v[min(i, len(v) - 1)]) for i in range(L)]
+        else:
+            if name_of(v) == 'predefined':
+                return None
+            out[nm] = [copy.deepcopy(v) for _ in range(nlev - 1)]
+    return out
+
+
+def same_outcome(a, b):
+    """two builds: both raise the same exception type, or bit-identical levels"""
+    if a.ml is None or b.ml is None:
+        return a.ml is None and b.ml is None and type(a.exc) is type(b.exc)
+    return compare_levels(level_values(a.ml), level_values(b.ml), 'bits') is None
+
+
 def eval_build_case(ctx, case, fmts, pending_store):
     ctor = case['ctor']
     rng_seed = case['seed']
-    ref = build(case, 'csr', trace_air=True)
-    ref2 = build(case, 'csr')
+    # the two reference builds are the two calls of ONE caller: fresh copies of the matrix, the same seed, and the caller's
+    # own option objects (dicts, lists, tuples holding dicts, B / BH arrays) handed to both calls
+    shared = real_kw(case['kw'])
+    opt0 = copy.deepcopy(shared)
+    ref = build(case, 'csr', trace_air=True, kw=shared)
+    mutated = opt_diff(opt0, shared)
+    ref2 = build(case, 'csr', kw=shared)
     nlev = len(ref.ml.levels) if ref.ml is not None else 0
     summ = case_summary(case)
+    if mutated:
+        ctx.feat('build_changes_option_objects:' + mutated.split(':')[0][8:60] + ':' + mutated.split(':')[1].split('(')[0].strip()[:30])
+    if carries_dict([v for k, v in shared.items() if k not in ('B', 'BH')]):
+        ctx.feat('options_with_nested_dicts')
+
+    def blame_options():
+        """a second build with the caller's option objects differs from the first: because the first build changed them?
+        (decided by a third build that gets pristine copies of the options)"""
+        if not mutated:
+            return ''
+        third = build(case, 'csr')
+        if same_outcome(ref, third):
+            return (f'; the first build CHANGED THE CALLER\'S OPTION OBJECTS ({mutated}) and the second build was given the same '
+                    f'objects -- a third build with pristine copies of the options equals the first')
+        return f'; (the first build also changed the caller\'s option objects: {mutated})'
 
     def payload(**extra):
         return replay_payload('build', case, **extra)
@@ -961,15 +1089,31 @@ def eval_build_case(ctx, case, fmts, pending_store):
     store_item(ref, 'csr', 1)
     # ---- reproducibility
     if (ref.exc is None) != (ref2.exc is None) or (ref.exc is not None and type(ref.exc) is not type(ref2.exc)):
-        ctx.violation(f'{ctor}: two builds from fresh copies with the same seed: one raises {ref.exc!r}, the other {ref2.exc!r}',
-                      payload(fmt='csr', bs=1, what='seed'))
+        ctx.violation(f'{ctor}: two builds from fresh copies with the same seed: one raises {ref.exc!r}, the other {ref2.exc!r}'
+                      + blame_options(), payload(fmt='csr', bs=1, what='seed'))
     ref_levels = None
     if ref.ml is not None and ref2.ml is not None:
         ref_levels = level_values(ref.ml)
         d = compare_levels(ref_levels, level_values(ref2.ml), 'bits')
         if d:
-            ctx.violation(f'{ctor}: two builds from fresh copies of the same matrix with the same NumPy seed differ: {d}; '
-                          f'options {summ["options"]}', payload(fmt='csr', bs=1, what='seed'))
+            ctx.violation(f'{ctor}: two builds from fresh copies of the same matrix with the same NumPy seed (and the same option '
+                          f'objects) differ: {d}; options {summ["options"]}' + blame_options(), payload(fmt='csr', bs=1, what='seed'))
+    elif ref.ml is not None and ref_levels is None:
+        ref_levels = level_values(ref.ml)
+    # ---- one option object shared by all levels of ONE build versus the same options written out level by level
+    pristine = copy.deepcopy(opt0)                       # `shared` has been through two builds
+    wide = expand_per_level(pristine, ctor, nlev) if ref.ml is not None else None
+    if wide is not None:
+        b = build(case, 'csr', kw=wide)
+        ctx.feat('per_level_written_out')
+        d = (f'it raises {type(b.exc).__name__}: {str(b.exc)[:80]}' if b.ml is None
+             else compare_levels(ref_levels, level_values(b.ml), 'bits'))
+        if d:
+            ctx.violation(f'{ctor}: {nlev} levels; the hierarchy built with one option object for all levels differs from the one '
+                          f'built with the same options written out level by level as independent copies '
+                          f'({", ".join(k for k in wide if wide[k] is not pristine.get(k))}): {d}; options '
+                          f'{summ["options"]}' + (f'; the build changes the option objects it is given ({mutated})' if mutated else ''),
+                          payload(fmt='csr', bs=1, what='levels'))
     # ---- other formats
     for fmt, bs in fmts:
         shuffle = rng_seed % 1000 + 1 if fmt in ('coo', 'csr_unsorted') else 0
@@ -1342,7 +1486,7 @@ def call_text(c):
 
 def reuse_stream(ctx, rng, count):
     for t in range(count):
-        if out_of_time(ctx, 46, 120):
+        if out_of_time(ctx, 50, 120):
             ctx.feat('reuse_budget_cut')
             break
         case = gen_case(rng, ctx.quick, reuse=True)
@@ -1430,7 +1574,7 @@ def pair_core(ctx, rng):
     labels = [sp_[0] for sp_ in shared_specs(Dsym != 0, n, np.random.default_rng(0))]
     pairs = [(a, b) for a in range(len(labels)) for b in range(len(labels)) if a != b]
     for t, (ia, ib) in enumerate(pairs):
-        if out_of_time(ctx, 40, 300):
+        if out_of_time(ctx, 44, 300):
             ctx.feat('pair_budget_cut')
             break
         ctor = str(pick(rng, ['sa', 'sa', 'rs', 'rn', 'air']))
@@ -1477,6 +1621,283 @@ def pair_core(ctx, rng):
         ctx.feat('pair:' + specs[ia][0] + '/' + specs[ib][0])
         ctx.feat('pair_core')
         eval_reuse_case(ctx, case, history, last, 'csr', 1)
+
+
+# ------------------------------------------------------------------------------------------------
+# part B3: (a) options that carry nested dicts / per-level lists on hierarchies with >= 3 levels (the caller's option objects
+# across two builds and across the levels of one build: eval_build_case); (b) the same solve repeated on one object with
+# relaxation-type / polynomial coarse solvers
+# ------------------------------------------------------------------------------------------------
+
+FILTERS = [{'postfilter': {'theta': 0.11}}, {'postfilter': {'k': 2}}, {'postfilter': {'k': 3, 'theta': 0.07}}, {'prefilter': {'k': 3}},
+           {'prefilter': {'theta': 0.13}, 'postfilter': {'theta': 0.09}}, {'prefilter': {'theta': 0.0}, 'postfilter': {'theta': 0.0}},
+           {'prefilter': {'k': 4, 'theta': 0.05}, 'postfilter': {'k': 3}}]
+SM_NESTED = [('gauss_seidel', {'sweep': 'symmetric', 'iterations': 2}),
+             [('gauss_seidel', {'sweep': 'backward'}), ('jacobi', {'omega': 0.8, 'withrho': False})],
+             ('chebyshev', {'degree': 2, 'iterations': 2}), [('sor', {'omega': 1.2}), ('richardson', {'omega': 0.9})],
+             ('schwarz', {'iterations': 2}), [('jacobi_ne', {'omega': 0.9, 'withrho': False}), 'gauss_seidel'], ('gmres', {'maxiter': 2}),
+             [('block_gauss_seidel', {'sweep': 'symmetric'}), ('block_jacobi', {'omega': 0.9, 'withrho': False})]]
+COARSE_NESTED = [('jacobi', {'withrho': False, 'omega': 0.5}), ('pinv', {'rtol': 1e-12}), ('splu', {}), ('cg', {'maxiter': 3}),
+                 ('gauss_seidel', {'iterations': 3}), 'pinv']
+
+
+def gen_nested_case(rng, ctor, filt=None, kry=None):
+    """a problem that coarsens to >= 3 levels x options given as tuples with dicts, dicts inside dicts, per-level lists"""
+    non = ctor == 'air' or (ctor != 'pw' and filt is None and rng.random() < 0.3)
+    if non:
+        D, fam = stencil2d(8, 6, eps=0.5, conv=2.0) * 0.7, 'upwind'
+    else:
+        fam = str(pick(rng, ['p1', 'p1', 'aniso', 'p2'] + (['cherm'] if ctor in ('sa', 'rn') and filt is None else [])))
+        if fam == 'p1':
+            n = int(rng.integers(40, 72))
+            D = (2 * np.eye(n) - np.eye(n, k=1) - np.eye(n, k=-1)) * 0.7
+        elif fam == 'aniso':
+            D = stencil2d(8, 6, eps=0.1) * (1.0 / 3.0)
+        elif fam == 'p2':
+            D = stencil2d(7, 7) * 1.1
+        else:
+            D = gen.spd_matrix(rng, int(rng.integers(30, 48)), 'poisson1d', complex_=True).toarray() * 0.7
+    D = np.ascontiguousarray(D)
+    n = D.shape[0]
+    cplx = bool(np.iscomplexobj(D))
+    kw = {'max_levels': int(pick(rng, [3, 4, 10, 10])), 'max_coarse': int(pick(rng, [2, 3]))}
+    if ctor in ('sa', 'rn'):
+        sym = 'nonsymmetric' if non else ('hermitian' if cplx else str(pick(rng, ['hermitian', 'symmetric'])))
+        f = copy.deepcopy(filt if filt is not None else pick(rng, FILTERS))
+        sm = fit_symmetry(('energy', {'krylov': kry or str(pick(rng, ['cg', 'cgnr', 'gmres'])), 'maxiter': 2,
+                                      'degree': int(pick(rng, [1, 2])), **f}), sym, fam)
+        r = rng.random()
+        if filt is not None:
+            pass
+        elif ctor == 'sa' and r < 0.3:
+            sm = pick(rng, [('jacobi', {'omega': 4.0 / 3.0, 'degree': 2, 'filter_entries': True, 'weighting': 'local'}),
+                            [('jacobi', {'omega': 1.0}), ('richardson', {'omega': 4.0 / 3.0})], [sm, None]])
+        elif r < 0.5:
+            sm = [sm, ('energy', {'krylov': sm[1]['krylov'], 'maxiter': 1})]
+        st = pick(rng, [('symmetric', {'theta': 0.0}), [('symmetric', {'theta': 0.0}), ('classical', {'theta': 0.23})],
+                        [('evolution', {'k': 2, 'epsilon': 4.0}), ('symmetric', {'theta': 0.13})],
+                        ('classical', {'theta': 0.27, 'norm': 'abs'}), [None, ('symmetric', {})]])
+        ags = ['standard', [('standard', {}), ('naive', {})], ('naive', {})]
+        if ctor == 'sa' and not cplx:
+            ags += [('lloyd', {'ratio': 0.3, 'maxiter': 3}), ['standard', ('lloyd', {'ratio': 0.3, 'maxiter': 3})]]
+        ics = [None, [('gauss_seidel', {'sweep': 'symmetric', 'iterations': 2}), None], ('gauss_seidel', {'sweep': 'symmetric', 'iterations': 2})]
+        if not cplx:
+            ics += [[('block_gauss_seidel', {'sweep': 'symmetric', 'iterations': 4}), None],
+                    [('gauss_seidel', {'sweep': 'symmetric', 'iterations': 2}), ('jacobi', {'iterations': 2})],
+                    [None, ('richardson', {'iterations': 1})]]
+        kw.update({'symmetry': sym, 'strength': st, 'aggregate': pick(rng, ags), 'smooth': sm, 'improve_candidates': pick(rng, ics),
+                   'keep': bool(rng.random() < 0.5)})
+        k = int(pick(rng, [1, 1, 2]))
+        kw['B'] = gen_B(rng, n, k, cplx)
+        if sym == 'nonsymmetric' and rng.random() < 0.5:
+            kw['BH'] = gen_B(rng, n, k, cplx).reshape(n, -1)
+            kw['B'] = kw['B'].reshape(n, -1)
+    elif ctor == 'rs':
+        kw.update({'strength': pick(rng, [('classical', {'theta': 0.27}), ('symmetric', {'theta': 0.13}), ('evolution', {'k': 2, 'epsilon': 4.0})]),
+                   'CF': pick(rng, [('RS', {'second_pass': True}), ('PMISc', {'method': 'MIS'}), ('CLJP', {'color': True})]),
+                   'interpolation': pick(rng, [('classical', {'modified': False}), ('direct', {})]), 'keep': bool(rng.random() < 0.5)})
+    elif ctor == 'air':
+        kw.update({'strength': ('classical', {'theta': 0.31, 'norm': 'min'}), 'CF': ('RS', {'second_pass': True}),
+                   'interpolation': pick(rng, [('one_point', {'by_val': True}), ('one_point', {})]),
+                   'restrict': pick(rng, [('air', {'theta': 0.053, 'degree': 2}), ('air', {'theta': 0.11, 'degree': 1})]),
+                   'filter_operator': pick(rng, [None, (True, 0.11)]), 'keep': bool(rng.random() < 0.5)})
+    else:
+        kw['aggregate'] = pick(rng, [('pairwise', {'theta': 0.27, 'norm': 'min', 'matchings': 2}),
+                                     [('pairwise', {'theta': 0.27, 'norm': 'min', 'matchings': 1}),
+                                      ('pairwise', {'theta': 0.0, 'norm': 'abs', 'matchings': 2})]])
+    pool = SM_NESTED + ([('fc_jacobi', {'omega': 1.0, 'iterations': 1, 'withrho': False, 'f_iterations': 2, 'c_iterations': 1})]
+                        if ctor in ('rs', 'air') else [])
+    pre = copy.deepcopy(pick(rng, pool))
+    kw['presmoother'] = pre
+    kw['postsmoother'] = pre if rng.random() < 0.5 else copy.deepcopy(pick(rng, pool))     # also: ONE object for both
+    kw['coarse_solver'] = copy.deepcopy(pick(rng, COARSE_NESTED))
+    return {'ctor': ctor, 'A': D, 'dtype': None, 'bs': 1, 'kw': kw, 'seed': int(rng.integers(2 ** 31)), 'tags': {'fam': fam, 'complex': cplx}}
+
+
+def options_core(ctx, rng, count, q):
+    """fixed part (whatever the seed): rootnode / smoothed aggregation x every pre- / post-filter option of energy smoothing x
+    the three Krylov variants; then `count` random cases over all constructors.  Judged by eval_build_case: purity, two
+    builds with the caller's own option objects, one object for all levels versus written out level by level"""
+    pending = []
+    cases = []
+    for ctor in ('rn', 'sa'):
+        for j, f in enumerate(FILTERS):
+            cases.append((ctor, f, ('cg', 'cgnr', 'gmres')[j % 3]))
+    for t in range(count):
+        cases.append((str(pick(rng, ['rn', 'rn', 'sa', 'sa', 'rs', 'air', 'pw'])), None, None))
+    for t, (ctor, f, kry) in enumerate(cases):
+        if out_of_time(ctx, 28, 500):
+            ctx.feat('options_budget_cut')
+            break
+        case = gen_nested_case(rng, ctor, f, kry)
+        eval_build_case(ctx, case, [[('csc', 1)], [('dense', 1)], []][t % 3], pending)
+        ctx.feat('options_core')
+    flush_store(ctx, pending, q)
+
+
+REPEAT_COARSE = ['jacobi', 'richardson', 'chebyshev', 'block_jacobi', 'jacobi_ne', ('chebyshev', {'degree': 2}), ('richardson', {'iterations': 6}),
+                 ('jacobi', {'iterations': 3}), ('block_jacobi', {'iterations': 2}), ('jacobi_ne', {'iterations': 2}), 'gauss_seidel',
+                 'gauss_seidel_ne', 'gauss_seidel_nr', 'sor', 'schwarz', 'block_gauss_seidel', 'cg', 'pinv']
+
+
+def jacobi_ne_on_converted_level(case, ml):
+    """coarse_solver='jacobi_ne' (scaled by a spectral radius) on a coarsest operator that is not stored as CSR (the BSR Galerkin
+    products of the aggregation solvers): setup_jacobi_ne converts the matrix on a throw-away level object inside every coarse
+    solve and the estimate is cached on that temporary, so every solve re-estimates it from new numpy.random start vectors.
+    Reported; until it is fixed or listed in KNOWN_FINDINGS.txt this input class is left out of the repeated-solve clause."""
+    co = case['kw'].get('coarse_solver')
+    return (name_of(co) == 'jacobi_ne' and not (isinstance(co, tuple) and co[1].get('withrho') is False)
+            and ml.levels[-1].A.format != 'csr')
+
+
+def repeat_protocol(case, warm, call, extras, fmt, bs, sort_first=False, one_seed=None):
+    """two solvers from fresh copies; both perform the same first solve (same RNG state: whatever a solver sets up lazily in its
+    first solve is the same on both); then `call` on one of them, other calls, `call` again; and `call` once on the twin --
+    each time with a different state of the NumPy global RNG"""
+    used = build(case, fmt, bs)
+    twin = build(case, fmt, bs)
+    if used.ml is None or twin.ml is None:
+        return None
+    if sort_first:
+        presort(used.ml)
+        presort(twin.ml)
+    ops0 = operator_snapshots(used.ml)
+    s = call['seed']
+    w1 = do_call(used.ml, warm)
+    w2 = do_call(twin.ml, warm)
+    r2 = do_call(used.ml, call, one_seed if one_seed is not None else s)
+    outs = [do_call(used.ml, c, one_seed) for c in extras]
+    r3 = do_call(used.ml, call, one_seed if one_seed is not None else (s + 1) % 2 ** 31)
+    rt = do_call(twin.ml, call, one_seed if one_seed is not None else (s + 2) % 2 ** 31)
+    ops1 = operator_snapshots(used.ml)
+    changed = [k for k, v in ops0.items() if k in ops1 and ops1[k][1] != v[1]]
+    return {'used': used, 'w': (w1, w2), 'r': (r2, r3, rt), 'outs': outs, 'changed_content': changed}
+
+
+def eval_repeat_case(ctx, case, warm, call, extras, fmt, bs):
+    ctor = case['ctor']
+    summ = case_summary(case, fmt, bs)
+    pr = repeat_protocol(case, warm, call, extras, fmt, bs)
+    if pr is None:
+        ctx.feat('repeat_build_raises')
+        return
+    ml = pr['used'].ml
+    nlev = len(ml.levels)
+    Ac = ml.levels[-1].A
+    cfmt = Ac.format + ('%dx%d' % Ac.blocksize if Ac.format == 'bsr' else '')
+    cs = str(name_of(case['kw'].get('coarse_solver', 'pinv')))
+    if jacobi_ne_on_converted_level(case, ml):
+        ctx.feat('left_out:repeat_jacobi_ne_coarse_on_' + Ac.format + '_level')
+        return
+    ctx.case(key=_key('repeat', ctor, fmt, cs, cfmt, nlev >= 2, int(Ac.shape[0]) > 15, call.get('cycle'), call.get('accel'), len(extras)),
+             nontrivial=nlev >= 2, sample={**summ, 'levels': nlev, 'coarsest': cfmt + ' n=%d' % Ac.shape[0]} if ctx.evaluations % 41 == 0 else None)
+    ctx.feat('repeat_ctor:' + ctor)
+    ctx.feat('repeat_coarse:' + cs)
+    ctx.feat('repeat_coarsest:' + cfmt + (':n>15' if Ac.shape[0] > 15 else ':n<=15'))
+    ctx.feat('repeat_outcome:' + pr['r'][0][0])
+
+    def payload(what):
+        return replay_payload('repeat', case, fmt=fmt, bs=bs, warm=warm, call=call, extras=extras, what=what)
+
+    if pr['changed_content']:
+        ctx.violation(f'{ctor}: solving changed level operator(s) {sorted(pr["changed_content"])[:4]} (level, field); smoothers '
+                      f'{sorted(smoother_names(case))}, coarse solver {cs}', payload('operator'))
+    w1, w2 = pr['w']
+    if w1 != w2:
+        ctx.violation(f'{ctor} ({fmt}): the first solve {call_text(warm)} of two solvers built from fresh copies with the same seed, '
+                      f'same RNG state, differs: {describe_diff(w1, w2)}; smoothers {sorted(smoother_names(case))}, coarse solver {cs}',
+                      payload('repeat'))
+        return
+    if w1[0] == 'exc':
+        ctx.feat('repeat_first_solve_raises')
+        return
+    r2, r3, rt = pr['r']
+    if r2 == r3 and r2 == rt:
+        return
+    which = (f'repeated on the same object (after {[call_text(c) for c in extras]}): {describe_diff(r2, r3)}' if r2 != r3
+             else f'on a twin solver with the same first solve: {describe_diff(r2, rt)}')
+    # classification: get_diagonal's in-place sort reached an operator only in a later call?  (decided as in eval_reuse_case)
+    fk = None
+    p2 = repeat_protocol(case, warm, call, extras, fmt, bs, sort_first=True)
+    if p2 is not None and len(set(p2['r'])) == 1 and not p2['changed_content']:
+        fk = K_SORT
+    note = ''
+    if fk is None:
+        p3 = repeat_protocol(case, warm, call, extras, fmt, bs, sort_first=True, one_seed=call['seed'])
+        if p3 is not None and len(set(p3['r'])) == 1:
+            note = ' [bit-identical when the NumPy global RNG is put into the same state before every call: the solver still draws random numbers in its second and later solves]'
+    ctx.violation(f'{ctor} ({fmt}): after a first solve {call_text(warm)} the call {call_text(call)} (NumPy global RNG in another state '
+                  f'each time) returns different bits {which}; smoothers {sorted(smoother_names(case))}, coarse solver '
+                  f'{case["kw"].get("coarse_solver")!r}, {nlev} levels, coarsest operator {cfmt} n={Ac.shape[0]}' + note,
+                  payload('repeat'), fkey=fk)
+
+
+def repeat_core(ctx, rng, count):
+    """fixed part: every relaxation-type / polynomial coarse solver x {smoothed aggregation, rootnode, one of ruge_stuben / air /
+    pairwise} on a scalar problem whose coarsest level is larger than the Krylov space of the spectral-radius estimate (so an
+    estimate really depends on its start vector), 1 and 2 candidates; then `count` random cases"""
+    Dsym = np.ascontiguousarray(stencil2d(12, 10, eps=0.5) * (1.0 / 3.0))
+    Dnon = np.ascontiguousarray(stencil2d(12, 10, eps=0.5, conv=2.0) * 0.7)
+    n = Dsym.shape[0]
+    t = 0
+    for j, cs in enumerate(REPEAT_COARSE):
+        for ctor in ('sa', 'rn', ('rs', 'air', 'pw')[j % 3]):
+            if out_of_time(ctx, 34, 450):
+                ctx.feat('repeat_budget_cut')
+                return
+            t += 1
+            non = ctor == 'air' or (ctor in ('sa', 'rn') and t % 5 == 0)
+            D, fam = (Dnon, 'upwind') if non else (Dsym, 'aniso')
+            kw = {'coarse_solver': copy.deepcopy(cs), 'max_levels': 2, 'max_coarse': 8}
+            if t % 4 == 3:
+                kw['max_levels'] = 3
+            if ctor in ('sa', 'rn'):
+                sym = 'nonsymmetric' if non else 'hermitian'
+                kw.update({'symmetry': sym, 'strength': ('symmetric', {'theta': 0.0}),
+                           'smooth': fit_symmetry(('energy', {'maxiter': 2}) if ctor == 'rn' else 'jacobi', sym, fam)})
+                if t % 4 == 2:
+                    Bk = np.ones((n, 2))
+                    Bk[:, 1] = np.arange(n) / (n - 1.0) + 0.01
+                    kw['B'] = Bk
+            elif ctor == 'air':
+                kw['strength'] = ('classical', {'theta': 0.31, 'norm': 'min'})
+            kw['presmoother'] = kw['postsmoother'] = pick(rng, ['gauss_seidel', 'jacobi', ('gauss_seidel', {'sweep': 'symmetric'}), 'chebyshev'])
+            case = {'ctor': ctor, 'A': D, 'dtype': None, 'bs': 1, 'kw': kw, 'seed': 9090 + t, 'tags': {'fam': fam, 'complex': False}}
+            b1 = rng.integers(-4, 5, size=n) / 3.0 + 0.1
+            b2 = rng.integers(-4, 5, size=n) / 3.0 + 0.2
+            warm = {'kind': 'solve', 'seed': 21 + t, 'b': b1, 'cycle': 'V', 'tol': 1e-30, 'maxiter': 1}
+            call = {'kind': 'solve', 'seed': int(rng.integers(2 ** 30)), 'b': b2, 'cycle': str(pick(rng, ['V', 'V', 'W', 'F'])), 'tol': 1e-30,
+                    'maxiter': 2}
+            if t % 3 == 0:
+                call['x0'] = rng.integers(-3, 4, size=n) / 5.0
+            if t % 7 == 0:
+                call['accel'] = str(pick(rng, ['cg', 'gmres', 'bicgstab']))
+            extras = [gen_call(rng, n, False, 2) for _ in range(t % 3)]
+            fmt = 'bsr' if (ctor in ('sa', 'rn') and t % 6 == 1) else ('dense' if t % 6 == 4 else 'csr')
+            ctx.feat('repeat_core')
+            eval_repeat_case(ctx, case, warm, call, extras, fmt, 1)
+    for _ in range(count):
+        if out_of_time(ctx, 36, 420):
+            ctx.feat('repeat_budget_cut')
+            return
+        case = gen_case(rng, ctx.quick, ctor=str(pick(rng, ['sa', 'sa', 'rn', 'rs', 'air', 'pw'])), reuse=True)
+        case['kw']['coarse_solver'] = copy.deepcopy(pick(rng, REPEAT_COARSE))
+        case['kw']['max_coarse'] = int(pick(rng, [5, 10, 20, 30]))
+        case['kw']['max_levels'] = int(pick(rng, [2, 2, 3, 10]))
+        n = case['A'].shape[0]
+        cplx = case['tags']['complex']
+        fmt, bs = 'csr', 1
+        r = rng.random()
+        if r < 0.2 and case['ctor'] != 'rs':
+            fmt, bs = 'bsr', case['bs']
+        elif r < 0.3:
+            fmt = str(pick(rng, ['dense', 'csc', 'coo']))
+        b1 = rng.integers(-4, 5, size=n).astype(complex if cplx else float) / 3.0 + 0.1
+        warm = {'kind': 'solve', 'seed': int(rng.integers(2 ** 30)), 'b': b1, 'cycle': 'V', 'tol': 1e-30, 'maxiter': 1}
+        call = gen_call(rng, n, cplx, 2)
+        extras = [gen_call(rng, n, cplx, 2) for _ in range(int(pick(rng, [0, 0, 1, 2])))]
+        ctx.feat('repeat_stream')
+        eval_repeat_case(ctx, case, warm, call, extras, fmt, bs)
 
 
 # ------------------------------------------------------------------------------------------------
@@ -2266,7 +2687,7 @@ def choose_formats(rng, case, all_formats):
 def build_stream(ctx, rng, count, q, all_formats=False):
     pending = []
     for t in range(count):
-        if out_of_time(ctx, 30, 400):
+        if out_of_time(ctx, 34, 400):
             ctx.feat('build_budget_cut')
             break
         case = gen_case(rng, ctx.quick)
@@ -2291,6 +2712,9 @@ def run(ctx):
     e54 = np.random.default_rng([int(getattr(ctx, 'round_seed', ctx.seed)) % (2 ** 32), 54])   # own stream
     part_convert_x(ctx, e54, ctx.scale(40, 600), q)
     part_pw_matchings(ctx, e54, ctx.scale(60, 1500), q)
+    b3 = np.random.default_rng([int(getattr(ctx, 'round_seed', ctx.seed)) % (2 ** 32), 159])   # own stream
+    options_core(ctx, b3, ctx.scale(30, 900), q)
+    repeat_core(ctx, b3, ctx.scale(24, 1500))
     build_stream(ctx, rng, ctx.scale(200, 7000), q)
     pair_core(ctx, np.random.default_rng(ctx.rng.getrandbits(31)))
     reuse_stream(ctx, rng, ctx.scale(450, 16000))
@@ -2305,6 +2729,9 @@ def search(ctx):
     q = LeanQueue()
     build_stream(ctx, rng, ctx.scale(150, 800), q, all_formats=True)
     reuse_stream(ctx, rng, ctx.scale(300, 1500))
+    b3 = np.random.default_rng([int(getattr(ctx, 'round_seed', ctx.seed)) % (2 ** 32), 160])
+    options_core(ctx, b3, ctx.scale(60, 400), q)
+    repeat_core(ctx, b3, ctx.scale(60, 400))
     q.flush(ctx)
 
 
@@ -2319,6 +2746,8 @@ def replay(ctx, data):
         q.flush(ctx)
     elif case['kind'] == 'reuse':
         eval_reuse_case(ctx, p['case'], p['history'], p['last'], p['fmt'], p['bs'])
+    elif case['kind'] == 'repeat':
+        eval_repeat_case(ctx, p['case'], p['warm'], p['call'], p['extras'], p['fmt'], p['bs'])
     elif case['kind'] == 'asa':
         eval_asa_case(ctx, p['case'], p.get('fmt') or 'csc')
     elif case['kind'] == 'int64':
